@@ -1560,6 +1560,27 @@ _EXT = {
 }
 
 
+def _operator_binop(op):
+    def f(it, args, kwargs, node):
+        from . import ops
+        if len(args) != 2 or kwargs:
+            raise _CE("operator function arguments")
+        return ops.binop(it, op, args[0], args[1], node)
+    return f
+
+
+def _operator_cmp(op):
+    def f(it, args, kwargs, node):
+        from . import ops
+        if len(args) != 2 or kwargs:
+            raise _CE("operator function arguments")
+        return ops.compare(it, op, args[0], args[1], node)
+    return f
+
+
+_EXT.update({f"operator.{n}": _operator_binop(o) for n, o in (("add", "Add"), ("sub", "Sub"), ("mul", "Mult"), ("floordiv", "FloorDiv"), ("mod", "Mod"),
+                                                             ("pow", "Pow"), ("and_", "BitAnd"), ("or_", "BitOr"), ("xor", "BitXor"), ("concat", "Add"))})
+_EXT.update({f"operator.{n}": _operator_cmp(o) for n, o in (("eq", "Eq"), ("ne", "NotEq"), ("lt", "Lt"), ("le", "LtE"), ("gt", "Gt"), ("ge", "GtE"))})
 _PATHM.update({"glob": _path_glob, "open": _path_open})
 
 
